@@ -106,3 +106,6 @@ pub proof fn lemma_two_positions(s: Seq<Entry>, e: Entry)
         }
     }
 }
+
+// the paths of the entries, in order: what sort_run_files hands to the binaries
+pub open spec fn paths_of(f: Seq<Entry>) -> Seq<PathT> { f.map_values(|e: Entry| e.2) }
